@@ -46,8 +46,8 @@ def buildItems (ws : List String) : Option (List (Item String)) := do
         | [] => none
   go raw doc.children
 
-/-- `feedBytes` = `feedBytesCode P` (the code as it is) unless the driver is started with the argument `stateful`
-(used to validate the prepared post-fix variant against a library built with fixes/C03-utf8-stateful-decode.diff) -/
+/-- `feedBytes` = `feedBytesCode P` (the code as it is) unless the driver is started with the argument `perchunk`
+(the per-read decoding the code used before repo commit 49994ec; for comparing against an old library build) -/
 def stepLine (feedBytes : BSt → Qx.Bytes → BSt × List (Ev String)) (s : BSt) (line : String) : BSt × String :=
   match words line with
   | ["reset"] => (binit, "ok")
@@ -66,4 +66,4 @@ def stepLine (feedBytes : BSt → Qx.Bytes → BSt × List (Ev String)) (s : BSt
   | _ => (s, "bad-op")
 
 def main (args : List String) : IO Unit :=
-  run binit (stepLine (if args.contains "stateful" then feedBytesStateful P else feedBytesCode P))
+  run binit (stepLine (if args.contains "perchunk" then feedBytesPerChunk P else feedBytesCode P))
